@@ -1,14 +1,14 @@
 import UsualProofs.C14.Inet
-/-! The accepted input grammar of `inet_pton4` (BSD lineage: leading zeros allowed). -/
+/-! The accepted input grammar of `inet_pton4` (leading zeros allowed, one to three digits: POSIX). -/
 namespace UsualProofs.C14
 open Usual.C14
 
 /-! ## the input grammar of `inet_pton4` -/
 
-/-- a decimal field: one or more digits (leading zeros allowed, any number of digits) whose value
-    is at most 255 -/
+/-- a decimal field: ONE TO THREE digits (leading zeros allowed) whose value is at most 255 — the
+    "ddd" of POSIX inet_pton (F42; before it any number of digits was taken) -/
 def DecOctet (ds : Bytes) (v : Nat) : Prop :=
-  ds ≠ [] ∧ (∀ d ∈ ds, isDigit d = true) ∧ digitsVal ds = v ∧ v ≤ 255
+  ds ≠ [] ∧ (∀ d ∈ ds, isDigit d = true) ∧ digitsVal ds = v ∧ v ≤ 255 ∧ ds.length ≤ 3
 
 /-- accumulate decimal digits -/
 def decAcc (a : Nat) (ds : Bytes) : Nat := ds.foldl (fun a d => a * 10 + (d - 48)) a
@@ -31,38 +31,45 @@ theorem isDigit_iff (d : Nat) : isDigit d = true ↔ 48 ≤ d ∧ d ≤ 57 := by
   simp [isDigit]
 
 /-- reading further digits of a field -/
-theorem pton4Go_digits (oc : Nat) (dn : List Nat) (ds : Bytes) (cur : Nat) (rest : Bytes)
-    (hd : ∀ d ∈ ds, isDigit d = true) (hv : decAcc cur ds ≤ 255) :
-    pton4Go ⟨true, oc, dn, cur⟩ (ds ++ rest) = pton4Go ⟨true, oc, dn, decAcc cur ds⟩ rest := by
-  induction ds generalizing cur with
+theorem pton4Go_digits (oc : Nat) (dn : List Nat) (ds : Bytes) (cur n : Nat) (rest : Bytes)
+    (hd : ∀ d ∈ ds, isDigit d = true) (hv : decAcc cur ds ≤ 255) (hn : n + ds.length ≤ 3) :
+    pton4Go ⟨true, oc, dn, cur, n⟩ (ds ++ rest) = pton4Go ⟨true, oc, dn, decAcc cur ds, n + ds.length⟩ rest := by
+  induction ds generalizing cur n with
   | nil => rfl
   | cons d ds ih =>
     have hdd := (isDigit_iff d).mp (hd d (by simp))
     have hstep : decAcc cur (d :: ds) = decAcc (cur * 10 + (d - 48)) ds := rfl
     rw [hstep] at hv ⊢
     have hle := decAcc_ge (cur * 10 + (d - 48)) ds
-    have h1 := step_next oc dn cur (d - 48) (by omega) (by omega)
+    simp only [List.length_cons] at hn
+    have h1 := step_next oc dn cur (d - 48) n (by omega) (by omega) (by omega)
     have e : 48 + (d - 48) = d := by omega
     rw [e] at h1
     rw [List.cons_append, pton4Go_cons _ _ _ _ h1]
-    exact ih _ (fun x hx => hd x (by simp [hx])) hv
+    have := ih _ (n + 1) (fun x hx => hd x (by simp [hx])) hv (by omega)
+    rw [this]
+    have e2 : n + 1 + ds.length = n + (d :: ds).length := by simp only [List.length_cons]; omega
+    rw [e2]
 
 /-- reading one whole field from a fresh state -/
-theorem pton4Go_field (oc : Nat) (dn : List Nat) (ds : Bytes) (v : Nat) (rest : Bytes)
+theorem pton4Go_field (oc : Nat) (dn : List Nat) (ds : Bytes) (v n : Nat) (rest : Bytes)
     (h : DecOctet ds v) (ho : oc < 4) :
-    pton4Go ⟨false, oc, dn, 0⟩ (ds ++ rest) = pton4Go ⟨true, oc + 1, dn, v⟩ rest := by
-  obtain ⟨hne, hd, hval, hle⟩ := h
+    pton4Go ⟨false, oc, dn, 0, n⟩ (ds ++ rest) = pton4Go ⟨true, oc + 1, dn, v, ds.length⟩ rest := by
+  obtain ⟨hne, hd, hval, hle, hlen⟩ := h
   cases ds with
   | nil => exact absurd rfl hne
   | cons d ds =>
     have hdd := (isDigit_iff d).mp (hd d (by simp))
     have hv : decAcc (d - 48) ds = v := by
       rw [← hval, digitsVal_eq]; simp [decAcc]
-    have h1 := step_first oc dn (d - 48) (by omega) ho
+    have h1 := step_first oc dn (d - 48) n (by omega) ho
     have e : 48 + (d - 48) = d := by omega
     rw [e] at h1
+    simp only [List.length_cons] at hlen
     rw [List.cons_append, pton4Go_cons _ _ _ _ h1]
-    rw [pton4Go_digits (oc + 1) dn ds (d - 48) rest (fun x hx => hd x (by simp [hx])) (by omega), hv]
+    rw [pton4Go_digits (oc + 1) dn ds (d - 48) 1 rest (fun x hx => hd x (by simp [hx])) (by omega) (by omega), hv]
+    have e2 : 1 + ds.length = (d :: ds).length := by simp only [List.length_cons]; omega
+    rw [e2]
 
 theorem decOctet_no_nul (ds : Bytes) (v : Nat) (h : DecOctet ds v) : ∀ x ∈ ds, x ≠ 0 := by
   intro x hx h0
@@ -77,13 +84,13 @@ theorem pton4_accepts (d1 d2 d3 d4 : Bytes) (v1 v2 v3 v4 : Nat) (s : Bytes)
   unfold pton4
   rw [hs]
   unfold P4.init
-  rw [pton4Go_field 0 [] d1 v1 _ h1 (by omega)]
-  rw [pton4Go_cons _ _ _ _ (step_dot 1 [] v1 (by omega))]
-  rw [pton4Go_field 1 _ d2 v2 _ h2 (by omega)]
-  rw [pton4Go_cons _ _ _ _ (step_dot 2 _ v2 (by omega))]
-  rw [pton4Go_field 2 _ d3 v3 _ h3 (by omega)]
-  rw [pton4Go_cons _ _ _ _ (step_dot 3 _ v3 (by omega))]
-  have := pton4Go_field 3 ([] ++ [v1] ++ [v2] ++ [v3]) d4 v4 [] h4 (by omega)
+  rw [pton4Go_field 0 [] d1 v1 0 _ h1 (by omega)]
+  rw [pton4Go_cons _ _ _ _ (step_dot 1 [] v1 _ (by omega))]
+  rw [pton4Go_field 1 _ d2 v2 0 _ h2 (by omega)]
+  rw [pton4Go_cons _ _ _ _ (step_dot 2 _ v2 _ (by omega))]
+  rw [pton4Go_field 2 _ d3 v3 0 _ h3 (by omega)]
+  rw [pton4Go_cons _ _ _ _ (step_dot 3 _ v3 _ (by omega))]
+  have := pton4Go_field 3 ([] ++ [v1] ++ [v2] ++ [v3]) d4 v4 0 [] h4 (by omega)
   rw [List.append_nil] at this
   rw [this]
   simp [pton4Go]
@@ -96,13 +103,13 @@ def Rep4 (st : P4) (w : Bytes) : Prop :=
     (∀ d ∈ cd, isDigit d = true) ∧ decAcc 0 cd = st.cur ∧ st.cur ≤ 255 ∧
     (st.sawDigit = true ↔ cd ≠ []) ∧
     st.octets = groups.length + (if cd = [] then 0 else 1) ∧ st.octets ≤ 4 ∧
-    (st.sawDigit = false → st.octets < 4)
+    (st.sawDigit = false → st.octets < 4) ∧ st.nd = cd.length ∧ cd.length ≤ 3
 
 theorem rep4_step (st st' : P4) (c : Nat) (w : Bytes) (h : pton4Step st c = some st') (hr : Rep4 st w) :
     Rep4 st' (w ++ [c]) := by
-  obtain ⟨sd, oc, dn, cu⟩ := st
-  obtain ⟨groups, cd, hw, hg, hdone, hcd, hcur, hle, hsd, hoc, hoc4, hlt⟩ := hr
-  simp only at hdone hcur hle hsd hoc hoc4 hlt
+  obtain ⟨sd, oc, dn, cu, nd⟩ := st
+  obtain ⟨groups, cd, hw, hg, hdone, hcd, hcur, hle, hsd, hoc, hoc4, hlt, hnd, hcl⟩ := hr
+  simp only at hdone hcur hle hsd hoc hoc4 hlt hnd
   unfold pton4Step at h
   simp only at h
   split at h
@@ -123,23 +130,29 @@ theorem rep4_step (st st' : P4) (c : Nat) (w : Bytes) (h : pton4Step st c = some
           subst hcd0
           have hcu : cu = 0 := by rw [← hcur]; rfl
           subst hcu
-          refine ⟨groups, [c], by rw [hw]; simp, hg, hdone, ?_, ?_, by simp only; omega, by simp, ?_, ?_, by simp⟩
+          refine ⟨groups, [c], by rw [hw]; simp, hg, hdone, ?_, ?_, by simp only; omega, by simp, ?_, ?_, by simp,
+            by simp, by simp⟩
           · intro d hd; simp only [List.mem_singleton] at hd; subst hd; simp [isDigit, hdig]
           · simp [decAcc]
           · simp only [if_true] at hoc; simp only; simp; omega
           · simp only [if_true] at hoc; simp only; have := hlt rfl; omega
       | true =>
         simp only [Bool.not_true, Bool.false_eq_true, if_false] at h
-        cases h
-        have hcdne : cd ≠ [] := hsd.mp rfl
-        refine ⟨groups, cd ++ [c], by rw [hw]; simp, hg, hdone, ?_, ?_, by simp only; omega, by simp, ?_, hoc4, by simp⟩
-        · intro d hd
-          simp only [List.mem_append, List.mem_singleton] at hd
-          rcases hd with hd | hd
-          · exact hcd d hd
-          · subst hd; simp [isDigit, hdig]
-        · rw [decAcc_snoc, hcur]
-        · simp only [hcdne, if_false] at hoc; simp only; simp; omega
+        split at h
+        · cases h
+        · next hn3 =>
+          cases h
+          have hcdne : cd ≠ [] := hsd.mp rfl
+          refine ⟨groups, cd ++ [c], by rw [hw]; simp, hg, hdone, ?_, ?_, by simp only; omega, by simp, ?_, hoc4, by simp,
+            by simp only [List.length_append, List.length_cons, List.length_nil]; omega,
+            by simp only [List.length_append, List.length_cons, List.length_nil]; omega⟩
+          · intro d hd
+            simp only [List.mem_append, List.mem_singleton] at hd
+            rcases hd with hd | hd
+            · exact hcd d hd
+            · subst hd; simp [isDigit, hdig]
+          · rw [decAcc_snoc, hcur]
+          · simp only [hcdne, if_false] at hoc; simp only; simp; omega
   · split at h
     · next hdot =>
       split at h
@@ -149,13 +162,14 @@ theorem rep4_step (st st' : P4) (c : Nat) (w : Bytes) (h : pton4Step st c = some
         have hsdt : sd = true := hdot.2
         subst hsdt
         have hcdne : cd ≠ [] := hsd.mp rfl
-        refine ⟨groups ++ [(cd, cu)], [], ?_, ?_, by simp [hdone], by simp, by simp [decAcc], by simp, by simp, ?_, ?_, ?_⟩
+        refine ⟨groups ++ [(cd, cu)], [], ?_, ?_, by simp [hdone], by simp, by simp [decAcc], by simp, by simp, ?_, ?_, ?_,
+          by simp, by simp⟩
         · rw [hw, hdot.1]; simp
         · intro g hgm
           simp only [List.mem_append, List.mem_singleton] at hgm
           rcases hgm with hgm | hgm
           · exact hg g hgm
-          · subst hgm; exact ⟨hcdne, hcd, by rw [digitsVal_eq]; exact hcur, hle⟩
+          · subst hgm; exact ⟨hcdne, hcd, by rw [digitsVal_eq]; exact hcur, hle, hcl⟩
         · simp only [hcdne, if_false] at hoc; simp only; simp; omega
         · simp only; omega
         · intro _; simp only; omega
@@ -175,8 +189,8 @@ theorem rep4_go (st st' : P4) (rest w : Bytes) (h : pton4Go st rest = some st') 
       simpa using this
 
 /-- THE GRAMMAR of `inet_pton4`: accepted are exactly four decimal fields separated by single
-    dots, each field one or more digits (LEADING ZEROS and any number of digits allowed — BSD
-    lineage; glibc rejects those) with value ≤ 255; the result is the four values -/
+    dots, each field ONE TO THREE digits (LEADING ZEROS allowed — POSIX "ddd"; glibc rejects
+    them) with value ≤ 255; the result is the four values -/
 theorem pton4_grammar (s v : Bytes) :
     pton4 s = some v ↔
       ∃ d1 d2 d3 d4 v1 v2 v3 v4, cstr s = d1 ++ cDot :: (d2 ++ cDot :: (d3 ++ cDot :: d4)) ∧
@@ -195,10 +209,10 @@ theorem pton4_grammar (s v : Bytes) :
         cases h
         have hr0 : Rep4 P4.init [] :=
           ⟨[], [], rfl, by simp, rfl, by simp, rfl, by simp [P4.init], by simp [P4.init], by simp [P4.init],
-            by simp [P4.init], by simp [P4.init]⟩
+            by simp [P4.init], by simp [P4.init], by simp [P4.init], by simp⟩
         have hr := rep4_go _ _ _ _ hg hr0
         rw [List.nil_append] at hr
-        obtain ⟨groups, cd, hw, hgr, hdone, hcd, hcur, hle, hsd, hoc, hoc4, hlt⟩ := hr
+        obtain ⟨groups, cd, hw, hgr, hdone, hcd, hcur, hle, hsd, hoc, hoc4, hlt, _, hcl⟩ := hr
         have hsdt : st.sawDigit = true := by
           cases hsdv : st.sawDigit with
           | true => rfl
@@ -209,7 +223,7 @@ theorem pton4_grammar (s v : Bytes) :
         match groups, hgl with
         | [g1, g2, g3], _ =>
           refine ⟨g1.1, g2.1, g3.1, cd, g1.2, g2.2, g3.2, st.cur, ?_, hgr g1 (by simp), hgr g2 (by simp),
-            hgr g3 (by simp), ⟨hcdne, hcd, by rw [digitsVal_eq]; exact hcur, hle⟩, ?_⟩
+            hgr g3 (by simp), ⟨hcdne, hcd, by rw [digitsVal_eq]; exact hcur, hle, hcl⟩, ?_⟩
           · rw [hw]; simp
           · rw [hdone]; simp
   · rintro ⟨d1, d2, d3, d4, v1, v2, v3, v4, hs, h1, h2, h3, h4, rfl⟩
